@@ -1,6 +1,10 @@
 package dhcp4_spoofer
 
 import (
+	"bytes"
+	"crypto/sha256"
+	"encoding/hex"
+	"errors"
 	"fmt"
 	"io/ioutil"
 	"net"
@@ -142,6 +146,45 @@ func (h *dhcpSubnet) appendRouteOptions(ip netip.Addr, mask net.IPMask, routeTo 
 	h.options[packet.DHCP4OptionClasslessRouteFormat] = buf
 }
 
+// leaseFileSeal starts the integrity line that saveConfig writes as the first line of the lease file:
+//
+//	# sha256: <hex sha256 of everything after this line>
+//
+// The line is a YAML comment: versions that do not know it load the file as before.
+const leaseFileSeal = "# sha256: "
+
+var errLeaseFileDamaged = errors.New("lease file is damaged: sha256 mismatch")
+
+// sealLeaseFile returns the lease file content for a YAML body: the integrity line followed by the body.
+func sealLeaseFile(body []byte) []byte {
+	sum := sha256.Sum256(body)
+	out := make([]byte, 0, len(leaseFileSeal)+2*len(sum)+1+len(body))
+	out = append(out, leaseFileSeal...)
+	out = append(out, hex.EncodeToString(sum[:])...)
+	out = append(out, '\n')
+	return append(out, body...)
+}
+
+// openLeaseFile returns the YAML to load from a lease file. A file that starts with a well formed
+// integrity line must match it: a truncated or otherwise damaged file is an error, which makes the
+// caller start with an empty table instead of loading whatever part of the file still parses.
+// A file without such a line (written by an older version, or by hand) is returned as it is.
+func openLeaseFile(source []byte) ([]byte, error) {
+	n := len(leaseFileSeal) + 2*sha256.Size // position of the line break
+	if len(source) <= n || !bytes.HasPrefix(source, []byte(leaseFileSeal)) || source[n] != '\n' {
+		return source, nil
+	}
+	want, err := hex.DecodeString(string(source[len(leaseFileSeal):n]))
+	if err != nil {
+		return source, nil
+	}
+	body := source[n+1:]
+	if sum := sha256.Sum256(body); !bytes.Equal(sum[:], want) {
+		return nil, errLeaseFileDamaged
+	}
+	return body, nil
+}
+
 func (handler *Handler) loadConfig(fname string) (net1 *dhcpSubnet, net2 *dhcpSubnet, t map[string]*Lease, err error) {
 	if fname == "" {
 		return
@@ -159,6 +202,10 @@ func (handler *Handler) loadByteArray(source []byte) (net1 *dhcpSubnet, net2 *dh
 		Net2   *SubnetConfig
 		Leases []Lease
 	}{}
+
+	if source, err = openLeaseFile(source); err != nil {
+		return nil, nil, nil, err
+	}
 
 	// err = yaml.UnmarshalStrict(source, &table)
 	err = yaml.Unmarshal(source, &table)
@@ -268,7 +315,14 @@ func (h *Handler) saveConfig(fname string) (err error) {
 		return err
 	}
 
-	err = ioutil.WriteFile(fname, stream, os.ModePerm)
+	// write a new file and rename it over the old one: a crash leaves the old or the new file,
+	// and whatever else may happen to the file is caught by the integrity line
+	tmp := fname + ".tmp"
+	if err = ioutil.WriteFile(tmp, sealLeaseFile(stream), os.ModePerm); err == nil {
+		if err = os.Rename(tmp, fname); err != nil {
+			os.Remove(tmp)
+		}
+	}
 	if err != nil {
 		fmt.Printf("error cannot write dhcp file: %s error %s", fname, err)
 		return err
